@@ -42,6 +42,7 @@ type VerifC15Opts struct {
 	AppProtectConf        appprotect.Configuration // harness-supplied (recording); nil = the real one
 	Configurator          *configs.Configurator    // nil when only create*Ex / Find* are driven
 	Wrap                  func(name string, s cache.Store) cache.Store
+	Share                 *VerifC15 // a second controller over the stores of this one (a freshly started controller on the same cluster)
 }
 
 // VerifC15 is a controller plus the stores behind its listers.
@@ -89,6 +90,12 @@ func NewVerifC15(o VerifC15Opts) *VerifC15 {
 		DosLog:   cache.NewStore(cache.DeletionHandlingMetaNamespaceKeyFunc),
 		ApSig:    cache.NewStore(cache.DeletionHandlingMetaNamespaceKeyFunc),
 		Recorder: record.NewFakeRecorder(1 << 16),
+	}
+	if o.Share != nil {
+		sh := o.Share
+		v.Services, v.Slices, v.Policies, v.Secrets, v.Pods = sh.Services, sh.Slices, sh.Policies, sh.Secrets, sh.Pods
+		v.Ingress, v.VS, v.VSR, v.TS = sh.Ingress, sh.VS, sh.VSR, sh.TS
+		v.ApPol, v.ApLog, v.DosProt, v.DosPol, v.DosLog, v.ApSig = sh.ApPol, sh.ApLog, sh.DosProt, sh.DosPol, sh.DosLog, sh.ApSig
 	}
 	nsi := &namespacedInformer{
 		namespace:                    "",
